@@ -335,7 +335,20 @@ pub fn inputs_c03(r: &mut Rng, n: usize, _tier: &str, out: &mut dyn Write) {
             // compare-after-arithmetic (seeded change C03-7: `+=` leaving (c, one century of ns), which the field-wise
             // order misreads): every arithmetic entry point, half of the results aimed at a whole number of centuries
             let a = total(r);
-            let how = *r.pick(&["add", "sub", "addassign", "subassign", "addu", "subu", "addassign_u", "subassign_u", "neg", "abs"]);
+            let how = *r.pick(&["add", "sub", "addassign", "subassign", "addu", "subu", "addassign_u", "subassign_u", "neg", "abs", "from_std"]);
+            if how == "from_std" {
+                // (seeded change C03-9: From<std::time::Duration> building (0, ns) directly for counts that fit a u64: one
+                // century and more come back un-normalised) counts from zero to beyond what a u64 of nanoseconds holds
+                let v: i128 = match r.below(5) {
+                    0 => r.below(NPC as u64) as i128,
+                    1 => NPC * (1 + r.below(5) as i128) + r.range_i64(-2, 2) as i128,
+                    2 => NPC + r.below((u64::MAX - NPC as u64) as u64) as i128,
+                    3 => u64::MAX as i128 + r.range_i64(-2, 2) as i128,
+                    _ => r.below(u64::MAX) as i128 * 3,
+                };
+                writeln!(out, "cmp_via from_std {} -", dstr(v.max(0))).unwrap();
+                continue;
+            }
             let k = r.range_i64(-3, 3) as i128 + if r.chance(1, 4) { r.range_i64(-32768, 32767) as i128 } else { 0 };
             let dlt = *r.pick(&[0i128, 0, 0, 1, -1]);
             match how {
@@ -595,6 +608,11 @@ pub fn exec(op: &str, a: &[&str]) -> Option<String> {
                 "subassign_u" => { let mut d = x0; d -= s2u(a[2]); d }
                 "neg" => -x0,
                 "abs" => x0.abs(),
+                // conversion entry points: a[1] is the count to convert (non-negative), through std::time::Duration
+                "from_std" => {
+                    let t = x0.total_nanoseconds().max(0) as u128;
+                    Duration::from(std::time::Duration::new((t / 1_000_000_000) as u64, (t % 1_000_000_000) as u32))
+                }
                 _ => return None,
             };
             let (c, ns) = x.to_parts();
